@@ -17,9 +17,24 @@ CHECKS = {
  "C06": ("model_checking", "invariant checking on every state of exhaustively enumerated modifier and engine spaces, oracle recomputed from an independent parse of each group's query",
          "16 query groups over every queryable property; every (contact, modifier) pair and every ordered pair of contact-changing actions x triggers x contacts x resume histories; membership, static-group clearing and event announcement are checked on every returned contact",
          "no-op modifiers on contacts with wrong stored membership are not judged; finite alphabets"),
+ "C08": ("model_checking", "deviation-bounded exploration of environment answers: map iteration order at every range-over-map site is chosen by the explorer (overlay rewriter generated from the working tree)",
+         "every range-over-map loop of goflow is rewritten (go/packages + go build -overlay, from the current tree) to iterate in explorer-chosen order; for each scenario (map-heavy engine sessions x language x trigger x clock step x history; migrate/clone/read/inspect/extract/change-language/PO export of every flow in the repository's test assets) run 0 takes canonical order and every static site hit is then deviated under 4 permutation policies (thorough: every dynamic point and all site pairs); all outputs must be byte-identical, and order-independent scenarios are cross-checked against a fresh process of the un-rewritten build",
+         "only goflow's own map iterations are explored; permutation policies instead of all n! orders for n>3; scenario set is finite"),
  "C10": ("fault_enumeration", "fault enumeration on every reachable state: all resume types x all single asset faults x live/restored",
          "every state reached by the BFS over the real engine x every resume type x {live, restored} x every single asset fault between sprints plus the storage fault; rejected resumes must leave JSON byte-identical with an empty sprint and not influence a later accepted resume (differential), impossible resumptions must fail the session",
          "single faults in quick tier; faults are edits of the asset document; small-scope graphs"),
+ "C04": ("exploration", "bounded exhaustive enumeration of calls, operator forms and template strings on the implementation, every case in an isolated child process with CPU-time and memory caps",
+         "every registered function and router test (read from the registries) at arity 0..5 over every tuple from a 42-value boundary alphabet (full at arity<=3), 19 operator/lookup forms on every pair, every template string of length<=6/7 over a 12-symbol alphabet and every <=4-token string, through Evaluator.Template/TemplateValue and run.EvaluateTemplate* of a real run; a JSON-number-with-huge-exponent sub-space; oracle: no panic, returns within the single-case CPU limit under a 4 GiB cap, error events consistent",
+         "small-scope value alphabet; single-case limit 20/60 CPU-seconds operationalises 'time bounded by the size of template, context and result'"),
+ "C13": ("exploration", "exhaustive value grids round-tripped through the implementation against big.Int / encoding/json references",
+         "decimal coefficient x exponent grid, instants on a calendar grid plus every offset transition 1800-2040 of 6-7 zones x all 12 date/time format environments (ISO and environment forms), all dates and times on grids, all JSON documents of depth<=2 width<=2 over 20 leaf and 8 key kinds (depth 3 over a reduced alphabet), and '=' pairs; every rendering must convert back to the same value at the rendered precision",
+         "host IANA timezone database shared by code and oracle; exponents within +-400; depth-3 JSON over a reduced alphabet"),
+ "C16": ("fault_enumeration", "bounded exhaustive enumeration of valid sources x targets plus single-fault (thorough: pair) JSON mutation and every byte-prefix truncation of 81 seed definitions",
+         "every valid source of the stated families (template positions x versions, all action/router/wait types, language/name cases, canonical graphs per version, legacy rule sets of every type) is migrated to every newer version (one go, stepwise, latest) and checked for loadability, UUID/graph preservation, idempotence, byte-identity of current definitions, template value preservation and read/marshal stability; every JSON path x 14 replacements and every truncation of 81 seeds must be rejected with an error or accepted, never panic",
+         "validity at old versions taken from the repository's migration test data; single faults in quick tier"),
+ "C17": ("exploration", "bounded exhaustive enumeration of legacy expressions by nesting depth against a reference evaluator and a compositionality differential",
+         "every nesting chain of depth 1-3 over 61 function signatures and 23 typed operator forms with a leaf alphabet, 21 string-literal forms in every text position and ordered pairs, and 18k templates with body text; each migrated expression must parse as exactly one expression and evaluate to the value given by a reference model of the legacy semantics or, where that is undefined, satisfy value(migrate(C[e])) == value(migrate(C[lit(value(migrate(e)))]))",
+         "fixed operand alphabet, depth<=3, one environment; the reference model declines cases outside its domain (counted)"),
  "C07": ("exploration", "bounded exhaustive enumeration of routers x operands x draws against a reference decision list",
          "every switch router with 0..2(3) cases drawn from all registered tests (read from the registry) with argument vectors incl. localized, erroring and wrong-arity ones, x default/no default, category/exit sharing, result name, waits/timeouts x a 13-value operand alphabet x contact language; random routers 2-4 categories x float64-boundary draws; router-less nodes; each run as a real session and compared with a reference decision list (exit, segment, saved result, failure when no category)",
          "cases lists <= 3; reduced atom alphabets at length 3 as stated in the evidence rule; behaviours the statement leaves open are not judged"),
@@ -29,6 +44,9 @@ CHECKS = {
  "C19": ("model_checking", "non-interference by lockstep twin-world BFS on the implementation, invariant on every reachable state",
          "twin worlds differing only in URN paths/display names are driven in lockstep by a BFS over the real engine; in every reachable state the fully forced expression context and environment facts must be identical under redaction and differ without it; a generated template corpus (every context path x every one-argument function) is an independent second layer; URN queries must be rejected under the policy",
          "evaluation is a pure function of context, environment and harness-owned seams; small-scope graphs; corpus evaluated on a subset of states"),
+ "C20": ("model_checking", "static inspection compared with all executions of exhaustively enumerated flows (BFS over resumes and environment answers on the implementation)",
+         "every canonical flow of <=2 nodes over a 21-kind alphabet of result-saving / asset-referencing actions and routers x triggers, BFS over resumes with HTTP answers and random draws up to a deviation bound; every saved result key/category, every exit taken from a wait and every asset touched (by fixed reference, and by influence re-runs with one field/global/group changed) must be covered by Flow.Inspect()",
+         "assets reached through wildcards, names or expressions are outside the dependency clause; small-scope flows"),
 }
 NOT_YET = {
 }
